@@ -28,7 +28,8 @@ func mkfs() *memfs.FS {
 	return fs
 }
 
-// setup binds: 1 root, 2 = /f opened RO, 3 = /d, 4 = /e.
+// setup binds: 1 root, 2 = /f opened RO, 3 = /d, 4 = /e, 5 = /f opened RW,
+// 6 = /e opened RO, 7 = /f unopened (handle indices 0..6 in that order).
 func setup(s *sess.Sess) {
 	s.Version(8192)
 	s.Attach(1)
@@ -36,6 +37,11 @@ func setup(s *sess.Sess) {
 	s.Open(2, 0)
 	s.Walk(1, 3, "d")
 	s.Walk(1, 4, "e")
+	s.Walk(1, 5, "f")
+	s.Open(5, 2)
+	s.Walk(1, 6, "e")
+	s.Open(6, 0)
+	s.Walk(1, 7, "f")
 }
 
 // kinds of batch elements.
@@ -316,6 +322,14 @@ func concurrency(c conc) *fw.Scenario {
 				A, gated, gh = rawpeer.Twalk(50, 3, 30, "x"), "WalkGetAttr", 2
 			case "mkdir-e":
 				A, gated, gh = rawpeer.Tmkdir(50, 4, "new"), "Mkdir", 3
+			case "write":
+				A, gated, gh = rawpeer.Twrite(50, 5, 0, []byte("w")), "WriteAt", 4
+			case "fsync":
+				A, gated, gh = rawpeer.Tfsync(50, 2), "FSync", 1
+			case "readdir-e":
+				A, gated, gh = rawpeer.Treaddir(50, 6, 0, 4000), "Readdir", 5
+			case "lopen-f":
+				A, gated, gh = rawpeer.Tlopen(50, 7, 0), "Open", 6
 			}
 			var B refcodec.Msg
 			switch c.B {
@@ -329,6 +343,12 @@ func concurrency(c conc) *fw.Scenario {
 				B = rawpeer.Tgetattr(51, 3)
 			case "clunk-e":
 				B = rawpeer.Tclunk(51, 4)
+			case "getattr-f":
+				B = rawpeer.Tgetattr(51, 2)
+			case "write-f":
+				B = rawpeer.Twrite(51, 5, 3, []byte("v"))
+			case "walk-e":
+				B = rawpeer.Twalk(51, 4, 32, "nope")
 			case "statfs":
 				B = rawpeer.Tstatfs(51, 1)
 			case "flush-idle":
@@ -395,6 +415,9 @@ func run(ctx *fw.Ctx, rep *fw.Report) {
 		{"read", "getattr-root", false}, {"read", "walk-d", false}, {"read", "read", false}, {"read", "clunk-e", false}, {"read", "statfs", false}, {"read", "flush-idle", false},
 		{"getattr-d", "walk-d", false}, {"walk-d", "getattr-d", false}, {"mkdir-e", "getattr-d", false}, {"mkdir-e", "read", false},
 		{"read", "getattr-root", true}, {"read", "read", true}, {"mkdir-e", "walk-d", true}, {"walk-d", "walk-d", true},
+		// read-class calls on ONE path do not order each other (WriteAt, FSync, Readdir and Open are read-class too)
+		{"write", "read", false}, {"write", "getattr-f", false}, {"write", "write-f", false}, {"write", "read", true}, {"fsync", "read", false}, {"fsync", "write-f", false},
+		{"readdir-e", "walk-e", false}, {"readdir-e", "walk-e", true}, {"lopen-f", "read", false}, {"lopen-f", "getattr-f", true}, {"read", "write-f", false},
 	} {
 		scs = append(scs, concurrency(c))
 	}
